@@ -40,7 +40,7 @@ def octabox(sub=0):
     return dict(bitmap=bitmap, diag=(0, 255, 0, 255), subs=subs)
 
 
-def s_full(version=5, glat_version=3, compress=(), rtl=False, with_collision=True, subboxes=True):
+def s_full(version=5, glat_version=3, compress=(), rtl=False, with_collision=True, subboxes=True, glyf=True, extra_attr_glyphs=0):
     names = ['notdef', 'space', 'a', 'b', 'c', 'd', 'x', 'y', 'z', 'acute', 'grave', 'pseudo', 'astral', 'lig', 'e', 'f']
     glyphs = []
     for i, n in enumerate(names):
@@ -82,6 +82,7 @@ def s_full(version=5, glat_version=3, compress=(), rtl=False, with_collision=Tru
                                          'PUSH_BYTE', 0xFE, 'ATTR_SET_SLOT', SLAT['attTo'], 'PUSH_SHORT', 1, 44, 'ATTR_SET', SLAT['attX'], 'PUSH_SHORT', 2, 88, 'ATTR_SET', SLAT['attY'], 'NEXT', 'RET_ZERO'),
              name='base mark mark > attach both'),
         Rule(0, [S('y')], A('PUSH_BYTE', 50, 'ATTR_SET', SLAT['shiftX'], 'PUSH_SHORT', 2, 188, 'ATTR_SET', SLAT['advX'], 'NEXT', 'RET_ZERO'), name='y {shift.x=50; adv=700}'),
+        Rule(0, [S('d')], A('PUSH_BYTE', 40, 'ATTR_SET', SLAT['advY'], 'PUSH_BYTE', 0xEC, 'ATTR_SET', SLAT['shiftY'], 'NEXT', 'RET_ZERO'), name='d {adv.y=40; shift.y=-20}'),
     ])
     passes = [p0, p1, p2]
     flags = 0
@@ -92,7 +93,7 @@ def s_full(version=5, glat_version=3, compress=(), rtl=False, with_collision=Tru
                 jlevels=[(GA['jstretch'], GA['jshrink'], GA['jstep'], GA['jweight'])], iSubst=0, iPos=2, iJust=len(passes), flags=flags,
                 aPseudo=GA['pseudo'], aBreak=GA['brk'], aBidi=GA['bidi'], aMirror=GA['mirror'], aPassBits=0, numUser=2, dir=1 if rtl else 0,
                 aCollision=GA['coll'] if (with_collision and glat_version >= 3) else 0, critFeatures=[0], scriptTags=[tag('latn')], maxPre=1, maxPost=2)
-    return dict(glyphs=glyphs, cmap=cm, cmap12=True, num_attrs=34, glat_version=glat_version, gloc_long=True, glyf=True, silf=silf,
+    return dict(glyphs=glyphs, cmap=cm, cmap12=True, num_attrs=34, glat_version=glat_version, gloc_long=True, glyf=glyf, extra_attr_glyphs=extra_attr_glyphs, silf=silf,
                 names={256: 'Feature One', 257: 'Off', 258: 'On', 259: 'Second', 260: 'Zero', 261: 'Two', 262: 'Héllo \U00010400'},
                 names_extra={(256, 0x40C): 'Trait Un'},
                 feats=[(tag('tst1'), 256, 0, [(0, 257), (1, 258)]), (tag('tst2'), 259, 0, [(0, 260), (2, 261)]), (tag('hid'), 262, 0x0800, [(0, 260), (1, 258)]), (tag('any'), 262, 0, [])],
@@ -149,7 +150,8 @@ def feat_family():
 def write_all(outdir):
     fonts = {'s_min': s_min(), 's_full': s_full(), 's_full_z': s_full(compress=('Silf', 'Glat')), 's_full_v3': s_full(version=3, glat_version=1, with_collision=False),
              's_full_v4': s_full(version=4, glat_version=2, with_collision=False), 's_full_rtl': s_full(rtl=True), 's_full_nosub': s_full(subboxes=False),
-             's_full_zs': s_full(compress=('Silf',)), 's_full_zg': s_full(compress=('Glat',))}
+             's_full_zs': s_full(compress=('Silf',)), 's_full_zg': s_full(compress=('Glat',)),
+             's_full_noglyf': s_full(glyf=False), 's_full_extra': s_full(extra_attr_glyphs=3)}
     fonts.update(feat_family())
     index = {}
     for name, spec in fonts.items():
